@@ -282,6 +282,19 @@ def run(c):
     if not ok:
         c.report("extraction/oracle build failed: " + out[-800:], {"machinery": "oracle"}, no_input=True)
         return
+    # 0. direct probe (implementation only; the operation is outside the modelled alphabet): an empty signature OBJECT
+    # appended through the Go API must not validate ("every entry in the signature list is a real signature")
+    EMPTYOBJ = 38
+    for base in range(4):
+        for pre in ([(CALC,)], [(CALC,), (SIGN, 0)], []):
+            ops = pre + [(EMPTYOBJ,), (VALIDATE,)]
+            l = c10_line(FX_REPAIRED, base, ops)
+            steps = parse_steps(run_go([l], shards=1)[0]) or []
+            c.count("empty-signature-object", 1, l)
+            if steps and steps[-1][0] == "ok":
+                c.report("an envelope whose signature list holds an empty signature object validates (history %s on base document %d)" % (show(ops), base),
+                         {"case": l, "clause": "every entry in the signature list is a real signature", "implementation": steps})
+                break
     # 1. corpus
     corpus = load_corpus("C10")
     check_lines(c, "corpus", [(parse_case_line(l)[1], parse_case_line(l)[2]) for _, l in corpus])
